@@ -5,6 +5,7 @@ import (
 	"fmt"
 	"github.com/fabiolb/fabio/transport"
 	"log"
+	"math"
 	"net/url"
 	"reflect"
 	"sort"
@@ -44,9 +45,7 @@ type Route struct {
 }
 
 func (r *Route) addTarget(service string, targetURL *url.URL, fixedWeight float64, tags []string, opts map[string]string) {
-	if fixedWeight < 0 {
-		fixedWeight = 0
-	}
+	fixedWeight = clampWeight(fixedWeight)
 
 	// de-dup existing target
 	for _, t := range r.Targets {
@@ -126,7 +125,7 @@ func (r *Route) setWeight(service string, weight float64, tags []string) int {
 				continue
 			}
 			n++
-			t.FixedWeight = w
+			t.FixedWeight = clampWeight(w)
 		}
 		return n
 	}
@@ -207,6 +206,22 @@ func (r *Route) config(addWeight bool) []string {
 // serve a single route. maxSlots must be a power of ten.
 const maxSlots = 1e4 // 10000
 
+// maxFixedWeight bounds a fixed weight so that the sum of the
+// fixed weights of a route stays finite.
+const maxFixedWeight = 1e9
+
+// clampWeight maps a configured weight to a usable value: NaN and
+// negative values mean "no fixed weight", absurdly large ones are capped.
+func clampWeight(w float64) float64 {
+	switch {
+	case math.IsNaN(w) || w < 0:
+		return 0
+	case w > maxFixedWeight:
+		return maxFixedWeight
+	}
+	return w
+}
+
 // weighTargets computes the share of traffic each target receives based
 // on its weight and the weight of the other targets.
 //
@@ -238,9 +253,10 @@ func (r *Route) weighTargets() {
 	}
 
 	// normalize fixed weights up (sumFixed < 1) or down (sumFixed > 1)
-	scale := 1.0
+	// by dividing by their sum (1/sumFixed overflows for tiny sums)
+	norm := 1.0
 	if sumFixed > 1 || (nFixed == len(r.Targets) && sumFixed < 1) {
-		scale = 1 / sumFixed
+		norm = sumFixed
 	}
 
 	// compute the weight for the targets with dynamic weights
@@ -252,7 +268,7 @@ func (r *Route) weighTargets() {
 	// assign the actual weight to each target
 	for _, t := range r.Targets {
 		if t.FixedWeight > 0 {
-			t.Weight = t.FixedWeight * scale
+			t.Weight = t.FixedWeight / norm
 		} else {
 			t.Weight = dynamic
 		}
